@@ -140,6 +140,8 @@ func runProperty(e *Engine, opts Options, prop string) *propRun {
 }
 
 // CmdCheck decides one property.
+var nRetries int
+
 func CmdCheck(opts Options, prop string) int {
 	t0 := time.Now()
 	seed := 0
@@ -205,7 +207,9 @@ func CmdCheck(opts Options, prop string) int {
 			failures = append(failures, failure{d, d.V.Output})
 		default:
 			// retry once with the thorough cap before declaring the proof lost
-			if opts.Tier != "thorough" {
+			if opts.Tier != "thorough" && nRetries < 10 {
+				// (bounded: on a tree where many proofs are lost the first few retries tell the story)
+				nRetries++
 				o2 := opts
 				o2.Tier = "thorough"
 				r := dischargeAll(o2, filepath.Join(opts.Verif, "out", prop), []*Obligation{d.O})
